@@ -198,7 +198,10 @@ def main():
     from rpylib.montecarlo.path import create_path
     from rpylib.process.coupling.couplingmarkovchain import CouplingMarkovChain
     traces = []
+    sde_only = len(sys.argv) > 4 and sys.argv[4] == "sde-only"
     shapes = [(1, 1), (2, 1), (1, 3), (2, 2), (3, 4)] + ([] if quick else [(4, 4), (2, 6), (5, 3)])
+    if sde_only:
+        shapes = []
     methods = [SamplingMethod.ALIAS, SamplingMethod.BINARYSEARCHTREE, SamplingMethod.HUFFMANNTREE, SamplingMethod.INVERSION,
                SamplingMethod.BINARYSEARCHTREEADAPTED1D, SamplingMethod.TABLE]
     maxlvl = 3
@@ -223,7 +226,13 @@ def main():
         grid = CTMCGrid(h=step * U, origin_coordinate=nl, axes=[np.array([j * step * U for j in range(-nl, nr + 1)])])
         atoms = atomic.atoms_everywhere(-nl * step - 6, nr * step + 6, rng, wmax=6)
         traces.append(run_sde_coupling(f"cp{len(traces)}", grid, atoms, rng.choice(methods[:3]), fv=(rep % 2 == 1),
-                                       sigma=rng.choice([0, 8]) * U, maxlvl=2))
+                                       sigma=rng.choice([0, 8]) * U, maxlvl=3))
+    if sde_only:
+        with open(out, "w") as f:
+            for t in traces:
+                f.write(json.dumps(t, separators=(",", ":")) + "\n")
+        print(len(traces))
+        return
     # non-lattice grids (the grid's own cell boundary is not the arithmetic mid-point): atoms are placed after the
     # grids of ALL levels have been seen, one in every elementary interval
     from harness.models import levy_models
